@@ -123,6 +123,7 @@ func (fs *localFileSystem) MkdirPanicIfExist(path string, permission Mode) {
 }
 
 func (fs *localFileSystem) mkdir(path string, permission Mode) {
+	verifSys("mkdir", path, 0)
 	if err := os.MkdirAll(path, os.FileMode(permission)); err != nil {
 		fs.logger.Panic().Str("path", path).Err(err).Msg("failed to create directory")
 	}
@@ -154,6 +155,7 @@ func (fs *localFileSystem) ReadDir(dirname string) []DirEntry {
 
 // CreateFile is used to create and open the file by specified name and mode.
 func (fs *localFileSystem) CreateFile(name string, permission Mode) (File, error) {
+	verifSys("create", name, 0)
 	file, err := os.OpenFile(name, os.O_RDWR|os.O_CREATE|os.O_TRUNC, os.FileMode(permission))
 	switch {
 	case err == nil:
@@ -208,6 +210,7 @@ func (fs *localFileSystem) OpenFile(name string) (File, error) {
 
 // Write flushes all data to one file.
 func (fs *localFileSystem) Write(buffer []byte, name string, permission Mode) (int, error) {
+	verifSys("create", name, 0)
 	file, err := os.OpenFile(name, os.O_RDWR|os.O_CREATE|os.O_TRUNC, os.FileMode(permission))
 	if err != nil {
 		switch {
@@ -230,6 +233,7 @@ func (fs *localFileSystem) Write(buffer []byte, name string, permission Mode) (i
 	}
 	defer file.Close()
 
+	verifSys("write", name, len(buffer))
 	size, err := file.Write(buffer)
 	if err != nil {
 		return size, &FileSystemError{
@@ -237,6 +241,7 @@ func (fs *localFileSystem) Write(buffer []byte, name string, permission Mode) (i
 			Message: fmt.Sprintf("Flush file return error, file name: %s,error message: %s", name, err),
 		}
 	}
+	verifSys("fsync", name, 0)
 	if syncErr := file.Sync(); syncErr != nil {
 		return size, &FileSystemError{
 			Code:    flushError,
@@ -264,6 +269,7 @@ var invokeTestHookAfterTmpFsync = func() {}
 func (fs *localFileSystem) WriteAtomic(buffer []byte, name string, permission Mode) (int, error) {
 	tmpName := name + ".tmp"
 	parentDir := filepath.Dir(name)
+	verifSys("create", tmpName, 0)
 	file, err := os.OpenFile(tmpName, os.O_RDWR|os.O_CREATE|os.O_TRUNC, os.FileMode(permission))
 	if err != nil {
 		if os.IsPermission(err) {
@@ -277,6 +283,7 @@ func (fs *localFileSystem) WriteAtomic(buffer []byte, name string, permission Mo
 			Message: fmt.Sprintf("Create tmp file return error, file name: %s, error message: %s", tmpName, err),
 		}
 	}
+	verifSys("write", tmpName, len(buffer))
 	size, writeErr := file.Write(buffer)
 	if writeErr != nil {
 		_ = file.Close()
@@ -286,6 +293,7 @@ func (fs *localFileSystem) WriteAtomic(buffer []byte, name string, permission Mo
 			Message: fmt.Sprintf("Write tmp file return error, file name: %s, error message: %s", tmpName, writeErr),
 		}
 	}
+	verifSys("fsync", tmpName, 0)
 	if syncErr := file.Sync(); syncErr != nil {
 		_ = file.Close()
 		_ = os.Remove(tmpName)
@@ -294,6 +302,7 @@ func (fs *localFileSystem) WriteAtomic(buffer []byte, name string, permission Mo
 			Message: fmt.Sprintf("Sync tmp file return error, file name: %s, error message: %s", tmpName, syncErr),
 		}
 	}
+	verifSys("close", tmpName, 0)
 	if closeErr := file.Close(); closeErr != nil {
 		_ = os.Remove(tmpName)
 		return size, &FileSystemError{
@@ -302,6 +311,7 @@ func (fs *localFileSystem) WriteAtomic(buffer []byte, name string, permission Mo
 		}
 	}
 	invokeTestHookAfterTmpFsync()
+	verifSys("rename", tmpName+"\x00"+name, 0)
 	if renameErr := os.Rename(tmpName, name); renameErr != nil {
 		// Do NOT remove the .tmp on rename failure: it is fully written
 		// and fsynced — the only durable record of what we tried to
@@ -313,6 +323,7 @@ func (fs *localFileSystem) WriteAtomic(buffer []byte, name string, permission Mo
 			Message: fmt.Sprintf("Rename %s -> %s return error: %s", tmpName, name, renameErr),
 		}
 	}
+	verifSys("syncdir", parentDir, 0)
 	if err := syncDir(parentDir); err != nil {
 		return size, &FileSystemError{
 			Code:    flushError,
@@ -348,6 +359,7 @@ func (fs *localFileSystem) Read(name string) ([]byte, error) {
 
 // Rename renames oldPath to newPath atomically.
 func (fs *localFileSystem) Rename(oldPath, newPath string) error {
+	verifSys("rename", oldPath+"\x00"+newPath, 0)
 	if err := os.Rename(oldPath, newPath); err != nil {
 		if os.IsNotExist(err) {
 			return &FileSystemError{
@@ -371,6 +383,7 @@ func (fs *localFileSystem) Rename(oldPath, newPath string) error {
 
 // DeleteFile is used to delete the file.
 func (fs *localFileSystem) DeleteFile(name string) error {
+	verifSys("unlink", name, 0)
 	err := os.Remove(name)
 	switch {
 	case err == nil:
@@ -394,6 +407,7 @@ func (fs *localFileSystem) DeleteFile(name string) error {
 }
 
 func (fs *localFileSystem) MustRMAll(path string) {
+	verifSys("rmall", path, 0)
 	if err := os.RemoveAll(path); err == nil {
 		return
 	}
@@ -436,6 +450,7 @@ func (fs *localFileSystem) CreateHardLink(srcPath, destPath string, filter func(
 		}
 	}
 	if !fi.IsDir() {
+		verifSys("link", srcPath+"\x00"+destPath, 0)
 		if err = os.Link(srcPath, destPath); err != nil {
 			code := otherError
 			if os.IsExist(err) {
@@ -461,6 +476,7 @@ func (fs *localFileSystem) CreateHardLink(srcPath, destPath string, filter func(
 
 		if path == srcPath {
 			if info.IsDir() {
+				verifSys("mkdir", destPath, 0)
 				if err = os.MkdirAll(destPath, info.Mode()); err != nil {
 					return &FileSystemError{
 						Code:    otherError,
@@ -485,6 +501,7 @@ func (fs *localFileSystem) CreateHardLink(srcPath, destPath string, filter func(
 			if filter != nil && !filter(path) {
 				return filepath.SkipDir
 			}
+			verifSys("mkdir", destFullPath, 0)
 			if err := os.MkdirAll(destFullPath, info.Mode()); err != nil {
 				return &FileSystemError{
 					Code:    otherError,
@@ -498,6 +515,7 @@ func (fs *localFileSystem) CreateHardLink(srcPath, destPath string, filter func(
 		}
 
 		parentDir := filepath.Dir(destFullPath)
+		verifSys("mkdir", parentDir, 1)
 		if err := os.MkdirAll(parentDir, 0o755); err != nil {
 			return &FileSystemError{
 				Code:    otherError,
@@ -505,6 +523,7 @@ func (fs *localFileSystem) CreateHardLink(srcPath, destPath string, filter func(
 			}
 		}
 
+		verifSys("link", path+"\x00"+destFullPath, 0)
 		if err := os.Link(path, destFullPath); err != nil {
 			code := otherError
 			if os.IsExist(err) {
@@ -528,6 +547,7 @@ func (fs *localFileSystem) CreateHardLink(srcPath, destPath string, filter func(
 
 // Write adds new data to the end of a file.
 func (file *LocalFile) Write(buffer []byte) (int, error) {
+	verifSys("write", file.file.Name(), len(buffer))
 	size, err := file.file.Write(buffer)
 	if size > 0 {
 		file.seqSynced = false
@@ -558,6 +578,7 @@ func (file *LocalFile) Write(buffer []byte) (int, error) {
 func (file *LocalFile) Writev(iov *[][]byte) (int, error) {
 	var size int
 	for _, buffer := range *iov {
+		verifSys("write", file.file.Name(), len(buffer))
 		wsize, err := file.file.Write(buffer)
 		if wsize > 0 {
 			file.seqSynced = false
@@ -664,11 +685,13 @@ func (file *LocalFile) Path() string {
 // Close is used to close File.
 func (file *LocalFile) Close() error {
 	if file.writable && !file.seqSynced {
+		verifSys("fsync", file.file.Name(), 0)
 		if err := syncFile(file.file); err != nil {
 			return err
 		}
 	}
 
+	verifSys("close", file.file.Name(), 0)
 	if err := file.file.Close(); err != nil {
 		return &FileSystemError{
 			Code:    closeError,
@@ -725,6 +748,7 @@ type seqWriter struct {
 }
 
 func (w *seqWriter) Write(p []byte) (n int, err error) {
+	verifSys("bufwrite", w.fileName, len(p))
 	n, err = w.writer.Write(p)
 	if n > 0 {
 		w.length += int64(n)
@@ -744,6 +768,7 @@ func (w *seqWriter) Path() string {
 
 func (w *seqWriter) Close() error {
 	defer releaseWriter(w.writer)
+	verifSys("bufflush", w.fileName, 0)
 	if err := w.writer.Flush(); err != nil {
 		return &FileSystemError{
 			Code:    closeError,
@@ -753,6 +778,7 @@ func (w *seqWriter) Close() error {
 	if w.file == nil {
 		return nil
 	}
+	verifSys("fsync", w.fileName, 0)
 	if !w.skipFadvise {
 		if syncErr := SyncAndDropCache(w.file.Fd(), 0, 0); syncErr != nil {
 			return &FileSystemError{
